@@ -111,6 +111,33 @@ class Ctx:
         self.errors.append(msg)
         self.rules[rid].instances.append((f"{relpath}::{qual}: {cons}", "UNRECOGNISED", why))
 
+    def defer(self, structural, semantic):
+        """`structural` rules know ONE code shape for a clause that the `semantic` (interpreted) rules decide from behaviour.
+        When every semantic rule is fully decided and holds, a structural rule that does not find its shape -- or finds
+        another one -- says nothing about behaviour: its VIOLATED / UNRECOGNISED outcomes become HOLDS with that
+        explanation.  When a semantic rule reports anything, the structural reports stay (they localise the defect)."""
+        for sid in semantic:
+            r = self.rules.get(sid)
+            if r is None:
+                return
+            n_h = sum(1 for i in r.instances if i[1] == "HOLDS")
+            if any(i[1] != "HOLDS" for i in r.instances) or n_h < max(1, r.floor):
+                return
+        why = "code shape differs from the pattern this rule knows; the behaviour it stands for is decided by " + ", ".join(semantic)
+        for rid in structural:
+            r = self.rules.get(rid)
+            if r is None:
+                continue
+            changed = False
+            for k, (site, outcome, detail) in enumerate(r.instances):
+                if outcome in ("VIOLATED", "UNRECOGNISED"):
+                    r.instances[k] = (site, "HOLDS", why)
+                    changed = True
+            if changed:
+                self.violations = [v for v in self.violations if v.rule != rid]
+                self.errors = [e for e in self.errors if not e.startswith(rid + " ") and not e.startswith(rid + ":")]
+                self.notes.append(f"{rid}: deferred to {', '.join(semantic)}")
+
     def undecided(self, rid, site, why):
         self.rules[rid].undecided += 1
         self.rules[rid].instances.append((site, "UNDECIDED", why))
